@@ -43,7 +43,9 @@ Record case := {
   pend : list (N * list (N * N))     (* existing .uploads/<id>: (index, [(part number, size)] in listing order) *)
 }.
 
-Definition the_cfg (c : case) : cfg := {| c_limit := limit c; c_inline := inline c; c_chunk := 1048576 |}.
+(* [limit] (the filer's -dirListLimit the case ran with) is not an input of the model any more:
+   completeMultipartUpload lists with an explicit limit *)
+Definition the_cfg (c : case) : cfg := {| c_inline := inline c; c_chunk := 1048576 |}.
 
 Definition fin_subset (a : list (path * bytes)) (b : list (path * fin)) : bool :=
   forallb (fun kv => match sfind b (fst kv) with Some f => fin_matches (snd kv) f | None => false end) a.
